@@ -177,6 +177,9 @@ func (g *gate) fillArgs(e event, label string, a []any) {
 		e["job"] = jk(a[0])
 		e["ok"] = a[1]
 		e["ack"] = a[2]
+	case "purge.deq":
+		e["job"] = jk(a[0])
+		e["ok"] = a[1]
 	case "disp.proc":
 		e["job"] = jk(a[0])
 		e["ok"] = a[1]
